@@ -430,6 +430,7 @@ type gen struct {
 	noURL    bool
 	allowRecFile bool
 	plainOnly bool
+	anyFormats bool
 }
 
 var fmtTexts = [][]string{
@@ -581,11 +582,11 @@ func (g *gen) body(f int, in *sFile, child *sFile, nparams int, depth int, n int
 
 // showable: a string of format type `from` can be shown in a body of format f within the calculus
 func (g *gen) showable(f, from int) bool {
-	return from == f || f == fHTML || f == fText
+	return g.anyFormats || from == f || f == fHTML || f == fText
 }
 
 func (g *gen) partialFormat(f int) int {
-	if f == fHTML || f == fText {
+	if f == fHTML || f == fText || g.anyFormats {
 		if g.c.Rng.Intn(2) == 0 {
 			return g.c.Rng.Intn(6)
 		}
@@ -599,7 +600,7 @@ func (g *gen) macro(f int, in *sFile, child *sFile, depth int) sMacro {
 	if g.c.Rng.Intn(4) == 0 {
 		// explicit result format
 		m.explicit = true
-		if f == fHTML || f == fText {
+		if f == fHTML || f == fText || g.anyFormats {
 			m.fmt = g.c.Rng.Intn(6)
 		}
 	}
@@ -651,27 +652,8 @@ func (g *gen) newFile(f int, depth int, declOnly bool) *sFile {
 }
 
 func genFileSet(c *Ctx, allowRec bool) *fileSet {
-	g := &gen{c: c, fs: &fileSet{}, maxDepth: 1 + c.Rng.Intn(3), allowRec: allowRec}
-	f := []int{fHTML, fHTML, fHTML, fText, fMarkdown, fJS, fCSS, fJSON}[c.Rng.Intn(8)]
-	if c.Rng.Intn(5) == 0 {
-		// main extends a layout
-		lay := &sFile{path: g.nextPath, fmt: f, extends: -1}
-		g.nextPath++
-		g.fs.files = append(g.fs.files, lay)
-		child := g.newFile(f, 1, true)
-		child.extends = lay.path
-		nm := g.c.Rng.Intn(2)
-		for i := 0; i < nm; i++ {
-			lay.macros = append(lay.macros, g.macro(f, lay, child, 1))
-		}
-		lay.body = g.body(f, lay, child, 0, 1, 2+c.Rng.Intn(4))
-		g.fs.main = child.path
-		return g.fs
-	}
-	g.allowRecFile = true
-	m := g.newFile(f, 0, false)
-	g.fs.main = m.path
-	return g.fs
+	g := &gen{c: c, fs: &fileSet{}, maxDepth: 1 + c.Rng.Intn(3), allowRec: allowRec, allowRecFile: true}
+	return genWith(g)
 }
 
 func init() {
@@ -862,4 +844,46 @@ func init() {
 			}
 		}
 	})
+}
+
+func runSources(files map[string]string, main string, conv bool) (tcResult, string) {
+	fsys := scriggo.Files{}
+	for k, v := range files {
+		fsys[k] = []byte(v)
+	}
+	opts := &scriggo.BuildOptions{Globals: tvalGlobals()}
+	if conv {
+		opts.MarkdownConverter = fakeConv
+	}
+	var t *scriggo.Template
+	var err error
+	if msg := PanicText(func() { t, err = scriggo.BuildTemplate(fsys, main, opts) }); msg != "" {
+		return tcResult{}, "buildpanic:" + normPanic(msg)
+	}
+	if err != nil {
+		return tcResult{}, "build:" + err.Error()
+	}
+	return runTemplate(t, 0), ""
+}
+
+func genWith(g *gen) *fileSet {
+	c := g.c
+	f := []int{fHTML, fHTML, fHTML, fText, fMarkdown, fJS, fCSS, fJSON}[c.Rng.Intn(8)]
+	if c.Rng.Intn(5) == 0 {
+		lay := &sFile{path: g.nextPath, fmt: f, extends: -1}
+		g.nextPath++
+		g.fs.files = append(g.fs.files, lay)
+		child := g.newFile(f, 1, true)
+		child.extends = lay.path
+		nm := g.c.Rng.Intn(2)
+		for i := 0; i < nm; i++ {
+			lay.macros = append(lay.macros, g.macro(f, lay, child, 1))
+		}
+		lay.body = g.body(f, lay, child, 0, 1, 2+c.Rng.Intn(4))
+		g.fs.main = child.path
+		return g.fs
+	}
+	m := g.newFile(f, 0, false)
+	g.fs.main = m.path
+	return g.fs
 }
